@@ -101,7 +101,9 @@ def generate(ck):
 
 
 def _materialise(desc):
-    tab = tables.from_desc(desc["table"])
+    # (user-diffusivity branch: the library scales by 1 / pseudopressure(p_i), which only makes sense
+    # for a pseudopressure referenced at or below the table's first row - no interior datum there)
+    tab = tables.from_desc(dict(desc["table"], datum=None) if desc["branch"] == "alpha" else desc["table"])
     cols = ["pressure", "pseudopressure", "compressibility", "viscosity", "z-factor", "density"]
     d = {c: np.array(tab[c], dtype=float) for c in cols if c in tab}
     sc, sm = desc.get("unit_scale", [1.0, 1.0])
@@ -139,9 +141,15 @@ def _p_i(desc, p):
         return float(p[-1]), "node"
     if mode == "first":
         return float(p[1]), "node"
+    # outside by anything from one ulp to 100 psi: "outside the table" has no tolerance band
+    hair = [None, 0.0, 1e-13, 1e-9, 3e-6, 1e-4][int(u[1] * 6) % 6]
     if mode == "below":
-        return float(p[0] - (1 + 100 * u[1])), "outside"
-    return float(p[-1] + (1e-6 + 100 * u[1])), "outside"
+        if hair is None:
+            return float(p[0] - (1 + 100 * u[1])), "outside"
+        return float(np.nextafter(p[0], -np.inf) if hair == 0.0 else p[0] * (1 - hair)), "outside"
+    if hair is None:
+        return float(p[-1] + (1e-6 + 100 * u[1])), "outside"
+    return float(np.nextafter(p[-1], np.inf) if hair == 0.0 else p[-1] * (1 + hair)), "outside"
 
 
 def run_case(ck, desc):
